@@ -40,7 +40,7 @@ LEVEL_TEXT = (
     "re-binds every binding as a fresh vector of push_mux(condition, bit of a, bit of b), no iteration can skip that, and nothing outside "
     "env.rs writes the storage of an Env (E8, E5). Not decided: the then/else operand order of mux_envs, and the mux tree of "
     "indexed assignment (value level, belongs to C01)."
-    " Since the hunter rounds (DESIGN.md 10.7 / 10.8) also: the parser never places a parsed operand into the tree twice (E11; one known finding: the index of a compound assignment), the lowering neither clones nor loops over a child (E12) and lowers every operand, condition, scrutinee, statement expression and callee body on every path (E16); every unrolled loop iteration has a scope of its own (E13); function bodies are lowered on the top-level scope plus their parameters (E14); an assignment reads the assigned variable after its index / value expressions (E15); Env::get / assign_mut walk the scopes innermost first and stop at the first hit (E17).")
+    " Since the hunter rounds (DESIGN.md 10.7 / 10.8) also: the parser never places a parsed operand into the tree twice (E11; one known finding: the index of a compound assignment), the lowering neither clones nor loops over a child (E12) and lowers every operand, condition, scrutinee, statement expression and callee body on every path (E16); every unrolled loop iteration has a scope of its own (E13); function bodies are lowered on the top-level scope plus their parameters (E14); an assignment reads the assigned variable after its index / value expressions (E15); Env::get / assign_mut walk the scopes innermost first and stop at the first hit (E17). E8 also decides the implication 'if mux_envs copies the outermost scope instead of merging it, nothing but consts may be bound there' (call parameters get a scope of their own).")
 LEVEL_NOTE = ("Trusted: rustc MIR and callee resolution; callee lowering functions obey the same protocol (each is "
               "analysed itself). The type checker checks function bodies in a fresh environment (C17), which is what makes "
               "a callee's assign_mut unable to reach a caller's binding.")
